@@ -1,7 +1,7 @@
 #!/bin/bash
 # parallel sweep of every registered check on /repo: tools/psweep.sh [tier] [seed] [jobs]
 # (checks are safe to run concurrently: the build phases take a lock, each run has its own binary)
-cd /verif
+cd "$(dirname "$0")/.."
 tier=${1:-quick}; seed=${2:-1}; jobs=${3:-3}
 log=.cache/psweep-$tier-$seed.log
 : > $log
